@@ -204,44 +204,54 @@ def guessOutputLogBlockSize (g : Gen) : Nat :=
   let k := min k (g.bhEnd - 1)
   guessLoop g k
 
-/-- rs: `finalize_raw_internal::<S1 = 64, S2>(truncate)`; `isLong` = `S2 == 64` -/
+/-- rs: `finalize_raw_internal`, "Copy block hash 1": the stored pieces (the 64th cell counts when it
+    is filled) plus — when the final rolling value is non-zero — the hash of the unfinished piece,
+    which replaces the 64th character when 64 are stored -/
+def _root_.Ffuzzy.Ctx.digest1 (c : Ctx) (rollNZ : Bool) : List UInt8 :=
+  let sz := if c.bh.getD 63 NIL != NIL then c.idx + 1 else c.idx
+  let d1 := c.bh.toList.take sz
+  if rollNZ then
+    if sz = 64 then d1.set 63 c.hFull else d1 ++ [c.hFull]
+  else d1
+
+/-- rs: `finalize_raw_internal`, "Copy block hash 2 (normal path)" from the context of the doubled
+    block size, for the four `(truncate, S2)` instances -/
+def _root_.Ffuzzy.Ctx.digest2 (b1 : Ctx) (rollNZ truncate : Bool) (s2 : Nat) : Except GenErr (List UInt8) :=
+  let isLong := s2 == 64
+  if truncate then
+    if b1.chHalf != NIL then
+      let last := if rollNZ then b1.hHalf else b1.chHalf
+      .ok (b1.bh.toList.take 31 ++ [last])
+    else
+      let d := b1.bh.toList.take b1.idx
+      .ok (if rollNZ then d ++ [b1.hHalf] else d)
+  else
+    let sz := if b1.bh.getD 63 NIL != NIL then b1.idx + 1 else b1.idx
+    if !isLong && sz > s2 then .error .outputOverflow
+    else
+      let d := b1.bh.toList.take sz
+      if rollNZ then
+        if !isLong then
+          if sz ≥ s2 then .error .outputOverflow else .ok (d ++ [b1.hFull])
+        else
+          if sz = 64 then .ok (d.set 63 b1.hFull) else .ok (d ++ [b1.hFull])
+      else .ok d
+
+/-- rs: `finalize_raw_internal::<S1 = 64, S2>(truncate)` -/
 def finalizeRaw (g : Gen) (truncate : Bool) (s2 : Nat) : Except GenErr Digest :=
   if g.fixedSize.isSome && g.fixedSize != some g.inputSize then .error .fixedSizeMismatch
   else if MAX_INPUT_SIZE < g.inputSize then .error .inputSizeTooLarge
   else
-    let isLong := s2 == 64
     let k := g.guessOutputLogBlockSize
-    let rollValue := g.roll.value
+    let rollNZ := g.roll.value != 0
     let bh0 := g.ctxAt k
-    -- block hash 1
-    let sz := if bh0.bh.getD 63 NIL != NIL then bh0.idx + 1 else bh0.idx
-    let d1 := (bh0.bh.toList.take sz)
-    let bh1 :=
-      if rollValue != 0 then
-        if sz = 64 then d1.set 63 bh0.hFull else d1 ++ [bh0.hFull]
-      else d1
-    -- block hash 2
+    let bh1 := bh0.digest1 rollNZ
     if k < g.bhEnd - 1 then
-      let b1 := g.ctxAt (k + 1)
-      if truncate then
-        if b1.chHalf != NIL then
-          let last := if rollValue != 0 then b1.hHalf else b1.chHalf
-          .ok ⟨k, bh1, b1.bh.toList.take 31 ++ [last]⟩
-        else
-          let d := b1.bh.toList.take b1.idx
-          .ok ⟨k, bh1, if rollValue != 0 then d ++ [b1.hHalf] else d⟩
-      else
-        let sz := if b1.bh.getD 63 NIL != NIL then b1.idx + 1 else b1.idx
-        if !isLong && sz > s2 then .error .outputOverflow
-        else
-          let d := b1.bh.toList.take sz
-          if rollValue != 0 then
-            if !isLong then
-              if sz ≥ s2 then .error .outputOverflow else .ok ⟨k, bh1, d ++ [b1.hFull]⟩
-            else
-              if sz = 64 then .ok ⟨k, bh1, d.set 63 b1.hFull⟩ else .ok ⟨k, bh1, d ++ [b1.hFull]⟩
-          else .ok ⟨k, bh1, d⟩
-    else if rollValue != 0 then
+      -- Copy block hash 2 (normal path)
+      match (g.ctxAt (k + 1)).digest2 rollNZ truncate s2 with
+      | .error e => .error e
+      | .ok bh2 => .ok ⟨k, bh1, bh2⟩
+    else if rollNZ then
       if k = 0 then .ok ⟨k, bh1, [bh0.hFull]⟩ else .ok ⟨k, bh1, [g.hLast]⟩
     else .ok ⟨k, bh1, []⟩
 
